@@ -6,27 +6,29 @@ Require Import Fsm.EngineDefs Fsm.Types Fsm.Engine Fsm.Actions Fsm.Provider Node
 Import ListNotations.
 
 Lemma reinit_msgs_skips_foreign now me id m :
-  String.eqb (m_event m) ev_sgn_start = false -> N.eqb (m_round m) id = false ->
+  N.eqb (m_round m) id = false ->
   forall l r h ops, reinit_msgs now me id h (l ++ m :: r) ops = reinit_msgs now me id h (l ++ r) ops.
 Proof.
-  intros He Hr l. induction l as [|x l IH]; intros r h ops.
-  - cbn [app reinit_msgs]. rewrite He, Hr. reflexivity.
+  intros Hr l. induction l as [|x l IH]; intros r h ops.
+  - cbn [app reinit_msgs]. rewrite Hr. reflexivity.
   - cbn [app reinit_msgs].
-    destruct (String.eqb (m_event x) ev_sgn_start); [reflexivity|].
     destruct (negb (N.eqb (m_round x) id)); [apply IH|].
+    destruct (String.eqb (m_event x) ev_sgn_start); [reflexivity|].
     destruct (N.eqb (m_recipient x) 0 || N.eqb (m_recipient x) me); [|apply IH].
-    destruct (process_message now h x) as [h' [o|]|h'|]; try apply IH. reflexivity.
+    destruct (process_message false now h x) as [h' [o|]|h'|]; try apply IH. reflexivity.
 Qed.
 
 Definition with_msgs (rd : redkg) (ms : list message) : redkg :=
   {| rd_id := rd_id rd; rd_hash := rd_hash rd; rd_parts := rd_parts rd; rd_msgs := ms |}.
 
+(* any embedded message of another round - a signing batch of another key included - is without
+   influence *)
 Theorem reinit_ignores_foreign_rounds now h rd l m r :
-  String.eqb (m_event m) ev_sgn_start = false -> N.eqb (m_round m) (rd_id rd) = false ->
+  N.eqb (m_round m) (rd_id rd) = false ->
   reinit_dkg now h (Some (with_msgs rd (l ++ m :: r))) = reinit_dkg now h (Some (with_msgs rd (l ++ r))).
 Proof.
-  intros He Hr. unfold reinit_dkg, with_msgs. cbn [rd_id rd_msgs rd_hash rd_parts].
-  rewrite (reinit_msgs_skips_foreign _ _ _ m He Hr). reflexivity.
+  intros Hr. unfold reinit_dkg, with_msgs. cbn [rd_id rd_msgs rd_hash rd_parts].
+  rewrite (reinit_msgs_skips_foreign _ _ _ m Hr). reflexivity.
 Qed.
 
 (* ---- the replay does not verify: what the original nodes refused for its signature is applied ---- *)
@@ -35,9 +37,9 @@ Definition with_sig (m : message) (s : sigv) : message :=
      m_sender := m_sender m; m_recipient := m_recipient m; m_tasks := m_tasks m |}.
 (* while verification is switched off (as during a reinitialisation) the signature of a message is
    never looked at: a message the original nodes refused for its signature is replayed like a genuine one *)
-Theorem unverified_replay now st m s :
+Theorem unverified_replay put now st m s :
   ns_skip st = true ->
-  process_message now {| h_st := st; h_tr := [] |} (with_sig m s) = process_message now {| h_st := st; h_tr := [] |} m.
+  process_message put now {| h_st := st; h_tr := [] |} (with_sig m s) = process_message put now {| h_st := st; h_tr := [] |} m.
 Proof.
   intros Hs. unfold process_message, with_sig.
   cbn [m_round m_event m_data m_req m_sig m_sender m_recipient m_tasks].
